@@ -238,8 +238,11 @@ struct PF14 {
 };
 
 enum { ST_FRESH = 0, ST_MIN = 1, ST_GEN = 2 };
+template <typename D> struct Is_Box { enum { value = 0 }; };
+template <typename I> struct Is_Box<Box<I> > { enum { value = 1 }; };
 template <typename D> static D* mk_dom(int which, int dim, int state) {
-  D* p = new D(which == 0 ? cs_a(dim) : cs_b(dim));
+  D* p = new D(dim, UNIVERSE); p->refine_with_constraints(which == 0 ? cs_a(dim) : cs_b(dim));
+  if (!Is_Box<D>::value) { delete p; p = new D(which == 0 ? cs_a(dim) : cs_b(dim)); }
   if (state == ST_MIN) (void) p->minimized_constraints();
   if (state == ST_GEN) (void) p->is_empty();
   return p;
@@ -258,8 +261,8 @@ template <typename D> static void common_domain_scenarios(const std::string& dn,
     std::function<D*()> none;
     dscn<D>(dn + ".copy" + sfx, X3, none, [](D& x, const D&) { D z(x); x.m_swap(z); });
     dscn<D>(dn + ".assign" + sfx, X3, Y3, [](D& x, const D& y) { x = y; });
-    dscn<D>(dn + ".add_constraint" + sfx, X3, none, [](D& x, const D&) { x.add_constraint(Variable(2) - Variable(0) <= 1); });
-    dscn<D>(dn + ".add_constraints" + sfx, X3, none, [](D& x, const D&) { x.add_constraints(cs_b(3)); });
+    dscn<D>(dn + ".add_constraint" + sfx, X3, none, [](D& x, const D&) { if (Is_Box<D>::value) x.add_constraint(Variable(2) <= 1); else x.add_constraint(Variable(2) - Variable(0) <= 1); });
+    dscn<D>(dn + ".add_constraints" + sfx, X3, none, [](D& x, const D&) { if (Is_Box<D>::value) { Constraint_System cs; cs.insert(Variable(0) >= 1); cs.insert(3 * Variable(2) <= 7); cs.insert(Variable(1) == 2); x.add_constraints(cs); } else x.add_constraints(cs_b(3)); });
     dscn<D>(dn + ".refine_with_constraint" + sfx, X3, none, [](D& x, const D&) { x.refine_with_constraint(Variable(0) + 2 * Variable(1) - Variable(2) <= 6); });
     dscn<D>(dn + ".intersection_assign" + sfx, X3, Y3, [](D& x, const D& y) { x.intersection_assign(y); });
     dscn<D>(dn + ".upper_bound_assign" + sfx, X3, Y3, [](D& x, const D& y) { x.upper_bound_assign(y); });
@@ -278,7 +281,7 @@ template <typename D> static void common_domain_scenarios(const std::string& dn,
     dscn<D>(dn + ".remove_higher_space_dimensions" + sfx, X3, none, [](D& x, const D&) { x.remove_higher_space_dimensions(1); });
     dscn<D>(dn + ".expand_space_dimension" + sfx, X3, none, [](D& x, const D&) { x.expand_space_dimension(Variable(0), 2); });
     dscn<D>(dn + ".fold_space_dimensions" + sfx, X3, none, [](D& x, const D&) { Variables_Set vs; vs.insert(Variable(0)); x.fold_space_dimensions(vs, Variable(2)); });
-    dscn<D>(dn + ".map_space_dimensions" + sfx, X3, none, [](D& x, const D&) { PF14 f; f.m.push_back(2); f.m.push_back(-1); f.m.push_back(0); x.map_space_dimensions(f); });
+    dscn<D>(dn + ".map_space_dimensions" + sfx, X3, none, [](D& x, const D&) { PF14 f; f.m.push_back(1); f.m.push_back(-1); f.m.push_back(0); x.map_space_dimensions(f); });
     dscn<D>(dn + ".queries" + sfx, X3, Y3, [](D& x, const D& y) {
       (void) x.is_empty(); (void) x.is_universe(); (void) x.is_bounded(); (void) x.contains(y); (void) x.is_disjoint_from(y); (void) x.constrains(Variable(1));
       (void) x.relation_with(Variable(0) - Variable(1) >= 0); (void) x.relation_with(point(Variable(0) + Variable(1)));
